@@ -2,7 +2,7 @@
 
 An enum spec is a dict
   T      type name                      kind   int|uint|int8..uint64
-  files  [ {name, blocks:[block]} ]     (the type declaration goes into the first file)
+  files  [ {name, blocks:[block]} ]     (the type declaration goes into file number `typefile`, default the first)
   aux    True when a second integer type `Aux` is declared (distractor specs use it)
 block = {paren: bool, specs: [spec]}
 spec  = {names:[..], form:'t'|'c'|'e', ty: explicit type (form t), exprs:[expr per name] (forms t,e),
@@ -364,7 +364,8 @@ class EnumGen:
         for bi, b in enumerate(blocks):
             files[min(bi * nfiles // len(blocks), nfiles - 1)]["blocks"].append(b)
         files = [f for f in files if f["blocks"] or f["name"] == "a.go"]
-        return {"T": T, "kind": kind, "files": files, "aux": aux}
+        typefile = rng.randrange(len(files)) if len(files) > 1 and rng.random() < 0.4 else 0
+        return {"T": T, "kind": kind, "files": files, "aux": aux, "typefile": typefile}
 
     def _run(self, rng, T, nxt, first, n, feature):
         """`A T = <first>` followed by n-1 empty specs (some `_`)"""
@@ -528,7 +529,7 @@ def render_files(en, pkg="cs"):
     out = {}
     for i, f in enumerate(en["files"]):
         body = ["package %s\n" % pkg]
-        if i == 0:
+        if i == en.get("typefile", 0):
             body.append("type %s %s\n" % (en["T"], en["kind"]))
             if en.get("aux"):
                 body.append("type Aux int\n")
@@ -851,7 +852,7 @@ func verifIsEnumU(v uint64) bool { return shoot.IsEnum[%(T)s, uint64](v) }
     return "\n".join(src)
 
 
-def oracle_c14(en, decl, hi):
+def oracle_c14(en, decl, hi, negs=()):
     T = en["T"]
     sg = KINDS[en["kind"]][0]
     flags = sorted(set(v for _, v in decl))
@@ -867,7 +868,7 @@ def oracle_c14(en, decl, hi):
 		sb.WriteString(%(T)s(n).String())
 	}
 	emit("strs", sb.String())
-	for _, f := range []%(T)s{%(flags)s} {
+%(negs)s	for _, f := range []%(T)s{%(flags)s} {
 		var h, a, r strings.Builder
 		for n := 0; n < hi; n++ {
 			x := %(T)s(n)
@@ -889,6 +890,8 @@ def oracle_c14(en, decl, hi):
 	}
 }
 ''' % {"hi": hi, "T": T, "flags": ", ".join(str(v) for v in flags),
+       "negs": ('\t{\n\t\tvar p []string\n\t\tfor _, x := range []%s{%s} {\n\t\t\tp = append(p, x.String())\n\t\t}\n'
+                '\t\temit("nstrs", strings.Join(p, "|"))\n\t}\n' % (T, ", ".join(str(v) for v in negs))) if negs else "",
        "decl": ", ".join('"%s=" + verifDec(%s)' % (n, n) for n, _ in decl)})
     return "\n".join(src)
 
@@ -998,6 +1001,8 @@ def features_of(en):
         fs.add("multi-block")
     if len(en["files"]) > 1:
         fs.add("multi-file")
+    if en.get("typefile", 0) != 0:
+        fs.add("type-declared-after-constants-file")
     T = en["T"]
     for f in en["files"]:
         for b in f["blocks"]:
